@@ -181,6 +181,51 @@ fn random_graph(rng: &mut Rng, idx: usize) -> (Vec<Vec<usize>>, usize) {
     (rows, nc)
 }
 
+/// a cycle of length 2L (through row 0) with pendant 4-cycles hanging off some of its nodes and an optional longer
+/// second cycle through row 0: the shapes in which "first collision" shortcuts and order-dependent scans go wrong
+fn cactus(rng: &mut Rng) -> (Vec<Vec<usize>>, usize) {
+    let l = 2 + rng.below(3); // main cycle r0-c0-r1-c1-...-r(l-1)-c(l-1)-r0
+    let mut nr = l;
+    let mut nc = l;
+    let mut edges: Vec<(usize, usize)> = vec![];
+    for t in 0..l { edges.push((t, t)); edges.push(((t + 1) % l, t)); }
+    // pendant 4-cycles at row nodes / column nodes of the main cycle
+    for t in 0..l {
+        if rng.coin(1, 2) && nr < 7 && nc + 1 < 9 { // at row t: (t,cA),(rA,cA),(rA,cB),(t,cB)
+            let (ca, cb, ra) = (nc, nc + 1, nr);
+            nc += 2; nr += 1;
+            edges.extend([(t, ca), (ra, ca), (ra, cb), (t, cb)]);
+        }
+        if rng.coin(1, 3) && nr + 1 < 8 && nc < 9 { // at column t: (rA,t),(rA,cA),(rB,cA),(rB,t)
+            let (ra, rb, ca) = (nr, nr + 1, nc);
+            nr += 2; nc += 1;
+            edges.extend([(ra, t), (ra, ca), (rb, ca), (rb, t)]);
+        }
+    }
+    // 4-cycles sharing an EDGE (row t, column t) of the main cycle: t - cA - rA - column t
+    for t in 0..l {
+        if rng.coin(1, 2) && nr < 8 && nc < 9 {
+            let (ca, ra) = (nc, nr);
+            nc += 1; nr += 1;
+            edges.extend([(t, ca), (ra, ca), (ra, t)]);
+        }
+    }
+    if rng.coin(1, 2) && nr + 3 < 12 && nc + 3 < 12 { // a much longer second cycle through row 0 and column 0
+        let (r1, r2, c1, c2) = (nr, nr + 1, nc, nc + 1);
+        nr += 2; nc += 2;
+        edges.extend([(0, c1), (r1, c1), (r1, c2), (r2, c2), (r2, 0)]);
+    }
+    if rng.coin(1, 2) && nr + 1 < 9 && nc + 1 < 10 { // a second, longer cycle through row 0 and column 0
+        let (ra, ca) = (nr, nc);
+        nr += 1; nc += 1;
+        edges.extend([(0, ca), (ra, ca), (ra, 0)]);
+    }
+    rng.shuffle(&mut edges);
+    let mut rows: Vec<Vec<usize>> = vec![vec![]; nr];
+    for (r, c) in edges { if !rows[r].contains(&c) { rows[r].push(c); } }
+    (rows, nc)
+}
+
 pub fn generate(a: &Args) {
     let mut out = Out::create(&a.out);
     let mut rng = Rng::new(a.seed ^ 0xC11);
@@ -202,6 +247,13 @@ pub fn generate(a: &Args) {
         rng.shuffle(&mut roots);
         roots.truncate(if is_thorough(a) { 8 } else { 5 });
         graph_events(&mut out, &rows, nc, &roots);
+    }
+    // cactus graphs, each built through three different insertion histories, every node as root
+    for i in 0..(if is_thorough(a) { 1500 } else { 120 }) {
+        let (rows, nc) = cactus(&mut rng);
+        let roots: Vec<usize> = (0..rows.len() + nc).collect();
+        graph_events_order(&mut out, &rows, nc, &roots, None);
+        for sh in 0..5u64 { graph_events_order(&mut out, &rows, nc, &roots, Some(1000 + 97 * i as u64 + 7919 * sh)); }
     }
     out.finish();
 }
